@@ -404,6 +404,31 @@ Proof.
   - (* pair *) rewrite (IH e1), (IH e2) by (cbn; auto). reflexivity.
 Qed.
 
+(* ------------------------------------------------------------------ nothing is left for the compiler *)
+Lemma explicit_form_children_map e : children (explicit_form e) = map explicit_form (children e).
+Proof.
+  destruct e; cbn [Overload.explicit_form children map opt_list app]; try reflexivity.
+  - destruct (ref_overload op e1 e2); reflexivity.
+  - destruct from, to; reflexivity.
+Qed.
+
+Lemma explicit_form_not_overloaded e : is_overloaded (explicit_form e) = false.
+Proof.
+  destruct e; try reflexivity. cbn [Overload.explicit_form].
+  destruct (ref_overload op e1 e2) eqn:E; [reflexivity|].
+  cbn [Overload.is_overloaded]. unfold Overload.ref_overload in *. rewrite !explicit_form_loc, E. reflexivity.
+Qed.
+
+(* after PatchOperators no binary node whose operand types match a candidate remains: the
+   compiler never sees an occurrence that was type-checked as an overload *)
+Theorem no_occurrence_remains e : exists_node is_overloaded (explicit_form e) = false.
+Proof.
+  induction e as [e IH] using expr_children_ind.
+  rewrite exists_node_eq, explicit_form_not_overloaded, explicit_form_children_map. cbn [orb].
+  apply existsb_false_in. intros c Hc. apply in_map_iff in Hc. destruct Hc as (x & <- & Hx).
+  apply IH. exact Hx.
+Qed.
+
 End Proofs.
 
 (* ------------------------------------------------------------------ Config.Check rejects *)
@@ -476,6 +501,7 @@ Proof.
   destruct (int_locs arg); [|discriminate]. cbn [existsb]. reflexivity.
 Qed.
 
+(* (the witnesses of the refuted statements use the universe below) *)
 (* ------------------------------------------------------------------ a small concrete universe: witnesses and non-vacuity *)
 Module Ex.
 Local Open Scope Z_scope.
@@ -590,3 +616,47 @@ Example checker_patcher_agree_refuted_witness :
   overload_at Ex.impl Ex.types Ex.ops Ex.tyof BAdd (Ex.idt 5 "A") (Ex.lit 13 1) = FHit Ex.tMoney "AddInt" /\
   overload_at Ex.impl Ex.types Ex.ops (retyped Ex.tyof arg Ex.tMoney) BAdd (Ex.idt 5 "A") (Ex.lit 13 1) = FHit Ex.tMoney "Add".
 Proof. vm_compute. repeat split. Qed.
+
+(* ------------------------------------------------------------------ expr.Compile with user visitors (expr.Patch) *)
+(* from the first check to the tree handed to the compiler: PatchOperators on the types of the
+   first check (tyof1), then the user's visitors (any function g on trees); the second check
+   records tyof2 and resolves binary nodes against the overloads again; PatchOperators is NOT
+   run again *)
+Definition tree_for_compiler implements types ops tyof1 (g : expr -> expr) (n : nat) (e : expr) : option expr :=
+  match patch_ops implements types ops tyof1 n e with
+  | PDone t => Some (g t)
+  | _ => None
+  end.
+
+(* FULL STATEMENT: no binary node that the second check types as an overload reaches the compiler *)
+Definition visitors_full_statement : Prop :=
+  forall implements types ops tyof1 tyof2 g n e t,
+    config_check types ops = true -> esize e <= n ->
+    tree_for_compiler implements types ops tyof1 g n e = Some t ->
+    exists_node (is_overloaded implements types ops tyof2) t = false.
+
+(* without visitors it holds *)
+Theorem visitors_partial implements types ops tyof1 n e t :
+  config_check types ops = true -> esize e <= n ->
+  tree_for_compiler implements types ops tyof1 (fun x => x) n e = Some t ->
+  exists_node (is_overloaded implements types ops tyof1) t = false.
+Proof.
+  intros Hcfg Hn. unfold tree_for_compiler. rewrite (patch_is_explicit_form implements types ops tyof1 Hcfg e n Hn).
+  intros H. inversion H. apply no_occurrence_remains.
+Qed.
+
+(* witness: `Y + B`, Y unknown at the first check (typed interface{}), a visitor renames Y to A *)
+Definition rename_Y (e : expr) : expr :=
+  map_tree (fun x => match x with EIdent a "Y" ns => EIdent a "A" ns | _ => x end) e.
+
+Theorem visitors_full_statement_refuted : ~ visitors_full_statement.
+Proof.
+  intros H.
+  specialize (H Ex.impl Ex.types Ex.ops
+                (fun p => if (snd p =? 80)%Z then TIface else Ex.tyof p)
+                (fun p => if (snd p =? 80)%Z then Ex.tMoney else Ex.tyof p)
+                rename_Y 3 (Ex.bin 53 BAdd (Ex.idt 80 "Y") (Ex.idt 7 "B"))
+                (Ex.bin 53 BAdd (Ex.idt 80 "A") (Ex.idt 7 "B")) eq_refl).
+  assert (Hn : esize (Ex.bin 53 BAdd (Ex.idt 80 "Y") (Ex.idt 7 "B")) <= 3) by (vm_compute; lia).
+  specialize (H Hn eq_refl). vm_compute in H. discriminate.
+Qed.
